@@ -92,6 +92,53 @@ fn header(h: &Header, out: &mut Vec<String>) {
     out.push(format!("logint={}", h.log_message_interval));
 }
 
+/// `ClockAccuracy::from_primitive` (crate-private in the library)
+pub fn clock_accuracy_from_primitive(v: u8) -> crate::config::ClockAccuracy {
+    crate::config::ClockAccuracy::from_primitive(v)
+}
+
+/// `TimeSource::from_primitive` (crate-private in the library)
+pub fn time_source_from_primitive(v: u8) -> crate::config::TimeSource {
+    crate::config::TimeSource::from_primitive(v)
+}
+
+/// Builds the `TimestampContext` a `SendEvent` action of the given kind carries, so that a
+/// recorded host history can be replayed from text. kind: 0 Sync, 1 DelayReq, 2 PDelayReq, 3 PDelayResp
+pub fn timestamp_context(
+    kind: u8,
+    id: u16,
+    requestor_clock: [u8; 8],
+    requestor_port: u16,
+) -> crate::port::TimestampContext {
+    use crate::port::verif_ctx;
+    verif_ctx(kind, id, requestor_clock, requestor_port)
+}
+
+/// textual form of a `TimestampContext`: `sync:<id>`, `dreq:<id>`, `pdreq:<id>`, `pdresp:<id>:<requestor>`
+pub fn timestamp_context_dump(ctx: &crate::port::TimestampContext) -> String {
+    crate::port::verif_ctx_dump(ctx)
+}
+
+/// One data set of the IEEE 1588 data set comparison, spelled out
+#[derive(Clone, Copy, Debug)]
+pub struct CmpInput {
+    pub gm_priority_1: u8,
+    pub gm_identity: [u8; 8],
+    pub gm_clock_class: u8,
+    pub gm_clock_accuracy: u8,
+    pub gm_variance: u16,
+    pub gm_priority_2: u8,
+    pub steps_removed: u16,
+    pub sender: [u8; 8],
+    pub receiver_clock: [u8; 8],
+    pub receiver_port: u16,
+}
+
+/// `ComparisonDataset::compare` on two explicit data sets; returns the variant name
+pub fn compare_datasets(a: CmpInput, b: CmpInput) -> String {
+    format!("{:?}", crate::bmc::verif_compare(a, b))
+}
+
 /// Error class of `Message::deserialize` as a stable string
 fn err_name(e: &WireFormatError) -> &'static str {
     match e {
